@@ -99,7 +99,7 @@ def check(prop, tier, seed):
                 "utilities for ranks {0, last, random} and iteration subsets (None, last, repeated, shuffled) vs direct "
                 "ranking in the task's direction (ties: any position carrying the cost; generations with NaN costs skipped); "
                 "non-trivial = completed run whose snapshots were compared")
-    rep.require("optimizers_observed", len(opts_seen), 84)
+    rep.require("optimizers_observed", len(opts_seen), 80)
     rep.require("snapshot_agents_compared", counters["sum_snap_agents"], 100000 if n >= 2000 else 100)
     rep.require("utility_outputs_judged", counters["sum_utils_judged"], 20000 if n >= 2000 else 100)
     return rep.finish()
